@@ -102,6 +102,12 @@ def model_corr(ctx, stream, cap, argv, replay):
         if resp != exp:
             fails.append(fail('disagreement', 'pot_complement: code %s / model %s' % (exp[:300], resp[:300]),
                               {'stream': stream, 'stage': 'complement'}, replay))
+    if cap.inline_in is not None and cap.inline_out is not None:
+        resp = drv.ask('inline ' + lean.hx(C.inline_request(cap)))
+        exp = 'ok ' + ' '.join('(cell %d %s)' % c for c in cap.inline_out)
+        if resp != exp:
+            fails.append(fail('disagreement', 'inline_cells (max score %r): code %s / model %s'
+                              % (cap.inline_in[0], exp[:300], resp[:300]), {'stream': stream, 'stage': 'inline'}, replay))
     if cap.compile_in is not None and cap.vols_before_post is not None:
         resp = drv.ask('compile ' + lean.hx(C.compile_request(cap)))
         mv = C.vols_from_response(C.parse_sexp(resp))
